@@ -53,12 +53,20 @@ def literal_case(seed, k):
     rng = rng_for(seed, PROP, "lit", k)
     picks = [p for p in rng.sample(LITERALS, rng.randint(1, 4))]
     shape = rng.choice(["named", "tuple", "enum_named", "enum_tuple"])
+    # a quarter of the cases are written by a macro_rules! macro: field types and values then reach the derive as `ty` /
+    # `expr` fragments (invisible groups) and must be treated like the tokens they wrap
+    via_macro = rng.random() < 0.25
+    margs, mparams = [], []
     fields, want = [], []
     for i, (ty, lit, fp) in enumerate(picks):
         if fp is None:
             fp = LIT_FIX.get((ty, lit))
         if fp is None:
             continue
+        if via_macro:
+            mparams += ["$t%d:ty" % i, "$v%d:expr" % i]
+            margs += [ty, lit]
+            ty, lit = "$t%d" % i, "$v%d" % i
         sp = rng.choice(["Default = %s", "Default(expression = %s)", "Default(expr = %s)", "Default(expression(%s))",
                          "Default(expr(%s))"]) % lit
         fields.append((i, ty, sp))
@@ -85,6 +93,8 @@ def literal_case(seed, k):
         text = ("#[derive(::educe::Educe)]\n#[educe(%s)]\npub enum Ty {\n    #[educe(Default)]\n    Chosen(\n%s    ),\n    Other(u8),\n}\n"
                 % (tl, body))
         pat = "Ty::Chosen(%s)" % ", ".join("f%d" % i for i, _, _ in fields)
+    if via_macro:
+        text = "macro_rules! mk { (%s) => {\n%s} }\nmk!(%s);\n" % (", ".join(mparams), text, ", ".join(margs))
     fps = " s.push(','); ".join("%sPayload::fp(f%d, &mut s);" % (RT, i) for i, _, _ in fields)
     glue = ("pub fn lit_fp(x: &Ty) -> String {\n    let mut s = String::new();\n    #[allow(unreachable_patterns)]\n    match x {\n"
             "        %s => { %s }\n        _ => s.push_str(\"<other variant>\"),\n    }\n    s\n}\n" % (pat, fps))
@@ -186,6 +196,14 @@ def union_expected(td, f):
 
 
 def judge(chk, c, obs, dropped):
+    if c.cid in dropped and c.info.get("lit"):
+        # this family consists of literals the property says are converted with Into (or taken as they are): the
+        # definition has to compile
+        d = dropped[c.cid][0]
+        chk.violation("literal-default-does-not-compile|%s" % (d.get("code") or d["message"][:40]),
+                      "a field default given as a bare literal does not compile:\n%s\n%s" % (d.get("rendered") or d["message"], c.text),
+                      {"case.rs": c.module()})
+        return
     if c.cid in dropped:
         chk.inconc("does-not-compile (see C01)")
         log("C08: case dropped: %s\n%s" % (dropped[c.cid][0]["rendered"] or dropped[c.cid][0]["message"], c.text))
